@@ -118,6 +118,8 @@ fn want(ctor: &str, x: &CelValue) -> Want {
         ("uint", Bool(b)) => Want::Exact((*b as u64).into()),
         ("uint", String(s)) => match strict_int(s) {
             Some(v) => match u64::try_from(v) {
+                // "-0" spells zero with a sign no uint rendering ever has: accepting it as 0 or rejecting it are both exact
+                std::result::Result::Ok(u) if s.starts_with('-') => Want::AnyOfOrErr(vec![u.into()]),
                 std::result::Result::Ok(u) => Want::Exact(u.into()),
                 std::result::Result::Err(_) => Want::Error,
             },
